@@ -442,7 +442,7 @@ func opGen() *rapid.Generator[op] {
 		o.Bypass = rapid.Bool().Draw(t, "bypass")
 		o.Mode = rapid.SampledFrom([]string{"GOVERNANCE", "COMPLIANCE"}).Draw(t, "mode")
 		o.Until = rapid.SampledFrom([]int{5, 30, 59, 61, 120, 1, -5}).Draw(t, "until")
-		if o.Kind == "batch" || o.Kind == "lockcfg" {
+		if o.Kind == "batch" || o.Kind == "lockcfg" || o.Kind == "delany" {
 			o.Pos = rapid.IntRange(0, 5).Draw(t, "pos")
 		}
 		o.Grant = rapid.Bool().Draw(t, "grant")
